@@ -21,6 +21,7 @@ import struct
 import sys
 
 from . import common as C
+from . import rfc1035
 
 TRUSTED = [
     "names are compared as text: the model's label bytes are decoded with CPython's bytes.decode('utf-8','replace') and joined with '.'; "
@@ -28,12 +29,21 @@ TRUSTED = [
     "python's recursion limit is modelled as 900 nested activations of _decode_labels_at_offset; the harness pins sys.setrecursionlimit accordingly "
     "and generates no pointer chain whose depth is within 20 of that budget",
     "sys.setprofile call/return events as the measure of activations; a bytes subclass counting slices taken inside _decode_labels_at_offset as the measure of label reads",
-    "logging (log.debug / _log_exception_debug) is not modelled",
+    "logging (log.debug / _log_exception_debug) is not modelled; the harness empties incoming._seen_logs when it exceeds 2000 entries: that "
+    "module-level dict keeps one exc_info (traceback -> frames -> datagram) per distinct message text and grows without bound under hostile "
+    "traffic -- memory is outside C02's per-datagram claim and is NOT checked here",
+    "the optional Cython build (incoming.pxd: unsigned int offsets/counters) is not exercised: the pure-Python module is what runs",
+    "every fifth datagram is decoded as the listener does, DNSIncoming(data, (addr, port), scope_id, now), and must give the same observation; "
+    "source/scope_id/now are otherwise not modelled (scope_id is not compared)",
 ]
 ASSUMPTIONS = [
     "the caller passes a `bytes` object of any length (the listener only forwards datagrams of at most 8966 bytes: leaf `oversize`)",
     "'strict RFC 1035 parser' = Zc.Wire.Strict (backward pointers >= 12, <= 128 hops, names <= 253 characters, exact rdlength, no trailing bytes); "
     "agreement is claimed when additionally every label re-encodes to <= 63 bytes of UTF-8 (always true for valid UTF-8 labels; RFC 6762 §16)",
+    "name length: the property's own first sentence fixes <= 253 characters, so 'strict' = RFC 1035's 255 wire octets AND that documented limit: an "
+    "RFC-legal 255-octet (254-character) ASCII name is rejected by library and Wire.Strict alike; a multi-byte name of <= 253 characters but > 255 "
+    "octets is accepted by the library and outside Wire.Strict. harness/rfc1035.py (a third parser written from the RFC) cross-checks Wire.Strict and "
+    "counts both deviations of the library from the RFC rule in the evidence (input_distribution rfc1035:*); they are a reading, not a violation",
 ]
 
 REC_BUDGET = 900  # Zc.Wire.DecodeLib.libCfg.recLimit
@@ -109,14 +119,17 @@ def _watchdog(signum, frame):
     raise WorkBudgetExceeded()
 
 
-def observe(data: bytes, count_reads=False):
+LISTENER_ARGS = (("192.0.2.7", 5353), 3, 1000000.0)  # source, scope_id, now -- as _listener.py:147 passes them
+
+
+def observe(data: bytes, count_reads=False, listener_args=False):
     """run the real decoder; -> dict(status, exc, counters, obj)"""
     import signal
 
     old = signal.signal(signal.SIGALRM, _watchdog)
     signal.setitimer(signal.ITIMER_REAL, WATCHDOG_S)
     try:
-        return _observe(data, count_reads)
+        return _observe(data, count_reads, listener_args)
     except WorkBudgetExceeded:
         sys.setprofile(None)
         return {"status": "nontermination", "exc": "WorkBudgetExceeded", "names": 0, "acts": 0, "depth": 0, "obj": None, "reads": 0}
@@ -125,7 +138,7 @@ def observe(data: bytes, count_reads=False):
         signal.signal(signal.SIGALRM, old)
 
 
-def _observe(data: bytes, count_reads=False):
+def _observe(data: bytes, count_reads=False, listener_args=False):
     I = impl()
     inc = I["inc"]
     dec_code, name_code = I["dec_code"], I["name_code"]
@@ -157,7 +170,7 @@ def _observe(data: bytes, count_reads=False):
     sys.setprofile(prof)
     try:
         try:
-            m = inc.DNSIncoming(data)
+            m = inc.DNSIncoming(data, *LISTENER_ARGS) if listener_args else inc.DNSIncoming(data)
         except Exception as e:  # noqa: BLE001 - the property is about *any* exception
             sys.setprofile(None)
             status, exc = "init-raised", exc_name(e)
@@ -652,6 +665,75 @@ def longref_packet(last, via_pointer=True):
     return struct.pack(">HHHHHH", 0, 0x8400, 0, 2, 0, 0) + rec1 + rec2
 
 
+SAFE_BASES = [[b"local"], [b"_tcp", b"local"], [b"foo", b"_tcp", b"local"], ["\u00e9".encode(), b"local"], [b"x" * 63, b"_tcp", b"local"]]
+ALL_KINDS = ["a", "aaaa", "ptr", "cname", "txt", "srv", "hinfo", "nsec"]
+
+
+def many_entries_packet(rng, nq, secs, owner="mixed", kinds=ALL_KINDS):
+    """a strict-accepted message with MANY questions/records (as many as announced, or as fit into 8966 bytes):
+    only labels that can be written back, names compressed against earlier ones, minimal rdata of every supported kind.
+    -> (datagram, nq, (nan, nau, nad)) with the counts actually written (the header carries exactly those)"""
+    w = Wire(rng, compress=1.0)
+    LIMIT = 8966
+
+    def owner_name():
+        if owner == "root":
+            return []
+        if owner == "pointer":
+            return SAFE_BASES[2]
+        return rng.choice(SAFE_BASES + [[]])
+
+    q = 0
+    for _ in range(nq):
+        nm = owner_name()
+        if len(w.b) + 70 + sum(len(l) + 1 for l in nm) > LIMIT:
+            break
+        w.name(nm)
+        w.b += struct.pack(">HH", rng.choice([1, 12, 33, 255]), rng.choice([1, 0x8001]))
+        q += 1
+    done = []
+    k = 0
+    for cnt in secs:
+        c = 0
+        for _ in range(cnt):
+            if len(w.b) > LIMIT - 190:
+                break
+            kind = kinds[k % len(kinds)]
+            k += 1
+            w.name(owner_name())
+            t = {"a": 1, "aaaa": 28, "ptr": 12, "cname": 5, "txt": 16, "srv": 33, "hinfo": 13, "nsec": 47}[kind]
+            w.b += struct.pack(">HHI", t, rng.choice([1, 0x8001]), rng.choice([0, 120, 4500]))
+            at = len(w.b)
+            w.b += b"\0\0"
+            if kind == "a":
+                w.b += bytes([10, 0, k & 255, (k >> 8) & 255])
+            elif kind == "aaaa":
+                w.b += b"\xfe\x80" + bytes(12) + bytes([k & 255, (k >> 8) & 255])
+            elif kind in ("ptr", "cname"):
+                w.name(rng.choice(SAFE_BASES))
+            elif kind == "txt":
+                w.b += rng.choice([b"", b"\x01x"])
+            elif kind == "srv":
+                w.b += struct.pack(">HHH", 0, 0, 80)
+                w.name(rng.choice(SAFE_BASES))
+            elif kind == "hinfo":
+                w.b += rng.choice([b"\x00\x00", b"\x01c\x01o"])
+            else:
+                w.name(rng.choice(SAFE_BASES))
+                w.b += b"\x00\x01\x40"
+            struct.pack_into(">H", w.b, at, len(w.b) - at - 2)
+            c += 1
+        done.append(c)
+    assert len(w.b) <= LIMIT
+    return w.finish(q, done, flags=0x8400 if sum(done) else 0, id_=0), q, tuple(done)
+
+
+def name_limit_packet(labels):
+    """one PTR question with exactly these labels"""
+    body = b"".join(bytes([len(l)]) + l for l in labels) + b"\x00"
+    return struct.pack(">HHHHHH", 0, 0, 1, 0, 0, 0) + body + struct.pack(">HH", 12, 1)
+
+
 def late_pointer_packet(rng, target, total=None, padbyte=None):
     """a well-formed response whose names are first written at offset `target` (behind a TXT record used as
     padding) and referenced by compression pointers afterwards: with `target` >= 0x1000 / 0x2000 the pointers
@@ -753,9 +835,15 @@ def check_case(res, data, stream, obs, mline, sline, bline, model_ok=True):
                     res.violate("C02:strict-disagrees", "the strict RFC 1035 parser accepts this datagram but the library's result differs (valid=%s)"
                                 % (obj["valid"] if obj else None), dict(case, strict=sline[:400]))
                 else:
-                    res.nontriv(("agree", len(obj["questions"]), tuple(sorted({r[4][0] for r in obj["records"]}))))
+                    nr, nqs = len(obj["records"]), len(obj["questions"])
+                    res.nontriv(("agree", min(nqs, 64) // 8, min(nr, 64) // 8, tuple(sorted({r[4][0] for r in obj["records"]}))))
+                    if nr > res.streams.get("max-agreeing-records", 0):
+                        res.streams["max-agreeing-records"] = nr
+                    if nqs > res.streams.get("max-agreeing-questions", 0):
+                        res.streams["max-agreeing-questions"] = nqs
             elif strict["supported"]:
                 res.count("strict-accepted-unencodable-label")
+    third_parser(res, data, case, obs, strict, sline is not None)
     # ---------------- C: model vs implementation
     if mline is not None:
         try:
@@ -773,6 +861,49 @@ def check_case(res, data, stream, obs, mline, sline, bline, model_ok=True):
         kind = (obs["status"], obs["exc"], obj["valid"] if obj else None, min(obs["depth"], 130), len(obj["questions"]) if obj else 0,
                 tuple(sorted({r[4][0] for r in obj["records"]})) if obj else (), strict is not None)
         res.nontriv(kind)
+
+
+def _py_decode(data, rule):
+    try:
+        return rfc1035.decode(data, rule)
+    except rfc1035.Reject:
+        return None
+
+
+def _reenc_ok(names):
+    return all(len(l.decode("utf-8", "replace").encode("utf-8")) <= 63 for n in names for l in n)
+
+
+def third_parser(res, data, case, obs, strict, have_lean):
+    """harness/rfc1035.py, written from the RFC: (i) cross-check of Lean's Wire.Strict under the same 253-character rule,
+    (ii) the agreement sentence judged without Lean, (iii) observations against RFC 1035's own 255-octet rule"""
+    obj = obs["obj"]
+    p253 = _py_decode(data, "strict")      # the rule of Wire.Strict: <= 255 octets and <= 253 characters
+    prfc = _py_decode(data, "rfc")
+    pchars = _py_decode(data, "chars253")  # the library's documented rule alone
+    if have_lean:
+        if (p253 is None) != (strict is None):
+            res.disagree("strict-vs-rfc1035.py", case, "python parser %s" % ("rejects" if p253 is None else "accepts"),
+                         "Wire.Strict %s" % ("rejects" if strict is None else "accepts"))
+        elif p253 is not None:
+            same = (p253["hdr"] == strict["hdr"] and p253["questions"] == strict["questions"] and p253["records"] == strict["records"]
+                    and p253["supported"] == strict["supported"] and _reenc_ok(p253["names"]) == strict["reencodable"])
+            if not same:
+                res.disagree("strict-vs-rfc1035.py", case, _short({k: p253[k] for k in ("hdr", "questions", "records", "supported")}), _short(strict))
+    if p253 is not None and p253["supported"] and _reenc_ok(p253["names"]):
+        res.count("rfc1035.py-accepted-in-scope")
+        ok = (obs["status"] == "ok" and obj["valid"] and obj["hdr"] == p253["hdr"] and obj["questions"] == p253["questions"]
+              and obj["records"] == p253["records"])
+        if not ok and not (strict is not None and strict["supported"] and strict["reencodable"]):  # else already reported above
+            res.violate("C02:strict-disagrees", "an independent strict RFC 1035 parser (253-character names) accepts this datagram but the library's result "
+                        "differs (valid=%s)" % (obj["valid"] if obj else None), case)
+    # ---- observations against the RFC's own name-length rule (a reading, never a violation)
+    if prfc is not None and p253 is None and prfc["supported"] and _reenc_ok(prfc["names"]):
+        res.count("rfc1035:legal-name-of-254-characters-rejected-by-the-253-rule")
+        res.count("rfc1035:legal-254-character-name:library-marks-message-%s" % ("valid(record-skipped)" if obj and obj["valid"] else "invalid"))
+    if pchars is not None and prfc is None and pchars["supported"]:
+        res.count("rfc1035:name-over-255-octets-accepted-by-the-253-character-rule")
+        res.count("rfc1035:over-255-octet-name:library-marks-message-%s" % ("valid" if obj and obj["valid"] else "invalid"))
 
 
 def _short(v):
@@ -853,6 +984,30 @@ def gen_cases(tier, rng, budget, res):
     for last in (57, 58, 59, 60, 61, 62, 63):
         for via in (True, False):
             yield ("longref", longref_packet(last, via))
+    # many entries: the section loops far beyond a handful of iterations, counts around powers of two
+    rec_counts = [15, 63, 64, 65, 127, 128, 129, 255, 256, 257, 500, 640]
+    for i, n in enumerate(rec_counts):
+        split = [(n, 0, 0), (0, n, 0), (0, 0, n), (n // 3, n // 3, n - 2 * (n // 3))][i % 4]
+        yield ("many-entries", many_entries_packet(rng, rng.choice([0, 1, 2]), split, owner=rng.choice(["mixed", "pointer"]))[0])
+    yield ("many-entries", many_entries_packet(rng, 0, (700, 0, 0), owner="root", kinds=["a"])[0])            # ~596 root-owned A records
+    yield ("many-entries", many_entries_packet(rng, 0, (300, 300, 300), owner="pointer", kinds=["ptr"])[0])    # compressed PTRs
+    for kind in ALL_KINDS:
+        yield ("many-entries", many_entries_packet(rng, 1, (0, 70, 70), owner="pointer", kinds=[kind])[0])
+    for nq in [6, 15, 16, 17, 63, 64, 65, 127, 128, 129, 255, 256, 257, 700]:
+        yield ("many-entries", many_entries_packet(rng, nq, (rng.choice([0, 0, 3]), 0, 0), owner=rng.choice(["mixed", "pointer"]))[0])
+    yield ("many-entries", many_entries_packet(rng, 1790, (0, 0, 0), owner="root")[0])                          # 1790 minimal questions
+    for _ in range(4 if tier == "quick" else 200):
+        p, _q, _d = many_entries_packet(rng, rng.choice([0, 1, 5, 40, 300]), [rng.choice([0, 10, 66, 130, 300]) for _ in range(3)])
+        yield ("many-entries", p)
+        yield ("many-entries-mutated", mutate(rng, p))
+    # names around the length limit: 253 characters (library/Strict) vs 255 wire octets (RFC 1035)
+    for last in (58, 59, 60, 61, 62):
+        yield ("name-limit", name_limit_packet([b"a" * 63] * 3 + [b"b" * last]))          # 251..255 characters, ASCII
+    yield ("name-limit", name_limit_packet(["\u00e9".encode() * 31] * 7))                  # 224 characters, 442 octets
+    yield ("name-limit", name_limit_packet(["\u65e5".encode() * 21] * 11 + [b"abcdefghij"]))  # 253 characters, 705 octets
+    yield ("name-limit", name_limit_packet(["\u65e5".encode() * 21] * 11 + [b"abcdefghijk"]))  # 254 characters
+    yield ("name-limit", name_limit_packet([b"a"] * 126))                                  # 126 labels, 252 characters
+    yield ("name-limit", name_limit_packet([b"a"] * 127))                                  # 254 characters
     # large datagrams whose pointer targets lie late in the packet (all 14 pointer bits matter)
     for target, total in [(0x0FF0, None), (0x1000, None), (0x1001, 8966), (0x1FFF, None), (0x2000, None), (0x2001, 8966), (0x2100, None),
                           (8193 - 17, 8193), (8300, 8400), (8700, None), (8800, 8966), (8966 - 120, None)]:
@@ -896,11 +1051,12 @@ def gen_cases(tier, rng, budget, res):
     # a few large ones
     for _ in range(6 if tier == "quick" else 60):
         w = Wire(rng, 0.8)
-        nrec = rng.choice([100, 300, 500])
-        for _ in range(nrec):
-            w.record(kind=rng.choice(["a", "ptr", "srv", "txt", "nsec"]))
-            if len(w.b) > 8800:
+        nrec = 0
+        for _ in range(rng.choice([100, 300, 500])):
+            if len(w.b) > 8500:
                 break
+            w.record(kind=rng.choice(["a", "ptr", "srv", "txt", "nsec"]))
+            nrec += 1
         p = w.finish(0, [nrec, 0, 0])[:8966]
         yield ("large", p)
         yield ("large-mutated", mutate(rng, p, w))
@@ -912,15 +1068,16 @@ def process(res, cases, driver_ok, base):
     for i, (stream, b) in enumerate(cases):
         i += base
         count_reads = (i % 3 == 0) or stream in ("graph", "chain") or stream.startswith("corpus")
+        largs = i % 5 == 1
         if count_reads:
-            o = observe(b, True)
+            o = observe(b, True, largs)
             if i % 12 == 0:
                 o2 = observe(b, False)  # the counting wrapper must not change behaviour
                 o2["reads"] = o["reads"]
                 if o2 != o:
                     res.disagree("counting-bytes", {"hex": C.hx(b)}, _short(o2), _short(o))
         else:
-            o = observe(b, False)
+            o = observe(b, False, largs)
         obs.append(o)
     mlines = slines = blines = [None] * len(cases)
     if driver_ok:
@@ -955,7 +1112,7 @@ def run(ctx):
     driver_ok = ctx["driver_ok"]
     budget = C.Budget(tier, 9000, 150000).n
     if ctx["widened"]:
-        budget = budget * 3 // 2
+        budget = budget * 5 // 4
     res.rule = ("datagrams from six streams (corpus; uniform random; wire-built valid messages and messages from the library's encoder, "
                 "plain and mutated by bit flips/truncation/insertion/count- and length-field corruption; pointer graphs: chains up to depth 4000, cycles, "
                 "self/forward references, pointers into rdata, empty-label chains; large datagrams (up to 8966 bytes) whose names are first defined "
@@ -972,6 +1129,12 @@ def run(ctx):
         driver_ok = process(res, chunk, driver_ok, base)
     utf8_stream(res, rng, tier, driver_ok)
     guard_stream(res, driver_ok)
+    res.notes.append("largest message on which the library agreed with the strict parser: %d records, %d questions"
+                     % (res.streams.get("max-agreeing-records", 0), res.streams.get("max-agreeing-questions", 0)))
+    res.notes.append("RFC 1035 name-length rule (255 wire octets) vs the 253-character rule of the property: %d RFC-legal datagrams rejected only because of "
+                     "a 254-character name, %d datagrams accepted although a name exceeds 255 octets (reading, see ASSUMPTIONS)"
+                     % (res.dist.get("rfc1035:legal-name-of-254-characters-rejected-by-the-253-rule", 0),
+                        res.dist.get("rfc1035:name-over-255-octets-accepted-by-the-253-character-rule", 0)))
     # report an escaping exception before anything else, and the shortest witness of each signature first
     res.violations.sort(key=lambda v: (0 if v["sig"].startswith("C02:escape") else 1, v["sig"], v["case"].get("len", 0)))
     return res
